@@ -168,6 +168,26 @@ func Compute(v int) int {
 `}})
 }
 
+func init() {
+	// simultaneous assignments among the locals and parameters of a function, with other locals read later
+	// (buffers and temporaries of the back-ends live next to the function's own names)
+	c10Corpus = append(c10Corpus, c10Prog{name: "swap-in-function", text: `func @func:rotate@(@param:first@ int, @param:second@ int) int {
+	@local:base@ := 100
+	@local:spare@ := 7
+	@param:first@, @param:second@ = @param:second@, @param:first@
+	@local:spare@, @param:first@, @param:second@ = @param:first@, @param:second@, @local:spare@
+	return @local:base@ + @param:first@ * 10 + @param:second@ + @local:spare@
+}
+func @func:getTotal@() int {
+	return @func:rotate@(1, 2) + 1
+}
+func @func:fetch@() int {
+	return @func:getTotal@() * 2
+}
+print(@func:rotate@(3, 4), @func:getTotal@(), @func:fetch@())
+`})
+}
+
 var c10Hole = regexp.MustCompile(`@([a-z]+):([A-Za-z0-9_]+)@`)
 
 func c10Roles(text string) [][2]string { // (kind, default name), in order of first occurrence
@@ -333,13 +353,24 @@ func C10() int {
 					cands = append(cands, strings.ToUpper(other[1]), strings.ToUpper(other[1][:1])+other[1][1:])
 				}
 			}
+			// the concatenation of two other identifiers (tables keyed by joined names must not confuse
+			// `get`+`Total` with `getTotal`): a function's name followed by any other identifier
+			for _, a := range roles {
+				for _, b := range roles {
+					if a[0] == "func" && a[1] != rl[1] && b[1] != rl[1] {
+						cands = append(cands, a[1]+b[1])
+					}
+				}
+			}
 			for _, nn := range cands {
 				if taken[nn] || (rl[0] == "func" && false) {
 					continue
 				}
 				key := fmt.Sprintf("role=%s name=%s", rl[0], c10Digits.ReplaceAllString(nn, "N"))
-				if strings.EqualFold(nn, rl[1]) == false && taken[strings.ToLower(nn)] {
-					key = fmt.Sprintf("role=%s name=case-twin-of-another-identifier", rl[0])
+				for t := range taken {
+					if t != rl[1] && t != nn && strings.EqualFold(t, nn) {
+						key = fmt.Sprintf("role=%s name=case-twin-of-another-identifier", rl[0])
+					}
 				}
 				vs = append(vs, variant{p, map[string]string{rl[1]: nn}, fmt.Sprintf("%s: %s %s -> %s", p.name, rl[0], rl[1], nn), key})
 			}
